@@ -41,28 +41,39 @@ def main():
     run.add_tlc(res, f"{cfg}: EnergyPreserved Composable Invertible VerticalUntouched PolarisedMotionRecovered ClockwiseConvention "
                      "RotationInvariantEnergy Periodic180")
     beh = [c for c in res.cases if isinstance(c, dict) and "ops" in c]
+    neg = tlc("RotationMC", "Rotation_neg", timeout=600, workers=4)
+    run.notes["negative_config_windows_forget_orientation_breaks_Composable"] = (neg.violated == "Composable")
+    if neg.violated != "Composable":
+        raise Exception(f"the negative configuration (windows report north) did not violate Composable: {neg.violated}")
+    run.notes["behaviours_with_split"] = sum(1 for b in beh if 0 in b["ops"])
     ts = h.TimeSeries
     for b in beh:
         s = SAMPLES[b["sset"] - 1]
         rec = h.SeismicRecording3C(ts(s["ns"], 0.01), ts(s["ew"], 0.01), ts(s["vt"], 0.01), degrees_from_north=deg(b["dep"]))
         for a in b["ops"]:
-            rec.orient_sensor_to(deg(a))
+            if a == 0:        # Split: carry on with the first window (both samples) of the two-sample recording
+                wins = rec.split(0.01)
+                if not wins or wins[0].ns.n_samples != 2:
+                    raise Exception("instance construction: the first window of a two-sample recording split at one time step should hold both samples")
+                rec = wins[0]
+            else:
+                rec.orient_sensor_to(deg(a))
         exp_ns = np.array([x[0] / x[1] for x in b["ns"]])
         exp_ew = np.array([x[0] / x[1] for x in b["ew"]])
-        key = f"deployed={deg(b['dep']):.4f} targets={[round(deg(a), 4) for a in b['ops']]} samples={s}"
+        key = f"deployed={deg(b['dep']):.4f} steps={[('split' if a == 0 else round(deg(a), 4)) for a in b['ops']]} samples={s}"
         rep = dict(kind="rotation", behaviour=b)
         if not (np.allclose(rec.ns.amplitude, exp_ns, rtol=1e-9, atol=1e-12) and np.allclose(rec.ew.amplitude, exp_ew, rtol=1e-9, atol=1e-12)):
             run.violation("orient:samples", f"{key}: ns={rec.ns.amplitude.tolist()} ew={rec.ew.amplitude.tolist()}, exact ns={exp_ns.tolist()} ew={exp_ew.tolist()}", rep)
         if not np.array_equal(rec.vt.amplitude, np.array(s["vt"], dtype=float)):
             run.violation("orient:vertical", f"{key}: the vertical component changed", rep)
-        last = deg(b["ops"][-1])
+        last = deg(b["cur"])
         if not (abs((rec.degrees_from_north - last) % 360.0) < 1e-9 or abs((rec.degrees_from_north - last) % 360.0 - 360.0) < 1e-9):
             run.violation("orient:degrees_from_north", f"{key}: degrees_from_north={rec.degrees_from_north}, last target {last}", rep)
         mcur = rec.meta.get("current degrees from north")
         if not isinstance(mcur, (int, float)) or min((mcur - last) % 360.0, (last - mcur) % 360.0) > 1e-9:
             run.violation("orient:meta", f"{key}: meta 'current degrees from north' = {mcur} but the sensor was last oriented to {last}", rep)
         # the orientation step of preprocessing is the same rotation
-        if len(b["ops"]) == 1:
+        if len(b["ops"]) == 1 and b["ops"][0] != 0:
             rec2 = h.SeismicRecording3C(ts(s["ns"], 0.01), ts(s["ew"], 0.01), ts(s["vt"], 0.01), degrees_from_north=deg(b["dep"]))
             st = h.HvsrPreProcessingSettings(orient_to_degrees_from_north=deg(b["ops"][0]), window_length_in_seconds=None, detrend=None,
                                              filter_corner_frequencies_in_hz=[None, None])
@@ -72,8 +83,8 @@ def main():
             if not (np.allclose(out.ns.amplitude, exp_ns, rtol=1e-9, atol=1e-12) and np.allclose(out.ew.amplitude, exp_ew, rtol=1e-9, atol=1e-12)):
                 run.violation("orient:preprocess", f"{key}: preprocess(orient_to_degrees_from_north) gives ns={out.ns.amplitude.tolist()} "
                               f"ew={out.ew.amplitude.tolist()}, exact ns={exp_ns.tolist()} ew={exp_ew.tolist()}", rep)
-        nt = (b["dep"], b["sset"], tuple(b["ops"])) if b["ops"][-1] != b["dep"] else None
-        run.case(nt, sample=dict(deployed_deg=deg(b["dep"]), targets_deg=[deg(a) for a in b["ops"]], samples=s, exact_ns=exp_ns.tolist(),
+        nt = (b["dep"], b["sset"], tuple(b["ops"])) if b["cur"] != b["dep"] else None
+        run.case(nt, sample=dict(deployed_deg=deg(b["dep"]), targets_deg=[("split" if a == 0 else deg(a)) for a in b["ops"]], samples=s, exact_ns=exp_ns.tolist(),
                                  exact_ew=exp_ew.tolist()) if nt and len(run.samples) < 2 and len(b["ops"]) == 2 else None)
 
     # polarised motion along a true azimuth phi recorded by a sensor deployed at delta reappears on phi
